@@ -259,7 +259,7 @@ fn main() {
     run.assume("feature set explored: std + serde-json; the string-only build is not explored by this driver");
 
     // R1: small-scope round trips
-    let nmax: i64 = tier.pick(999, 9_999);
+    let nmax: i64 = tier.pick(999, 199_999);
     run.bound("R1_unscaled_max", nmax);
     run.bound("R1_scales", "-20..=20");
     run.par("R1 small-scope round trips", (nmax + 1) as usize, |i| {
@@ -287,7 +287,7 @@ fn main() {
     });
 
     // R2: long operands x scale alphabet around the limit
-    let lens: &[usize] = if tier.is_thorough() { &[1, 2, 19, 20, 40, 100, 400] } else { &[1, 2, 20, 40, 400] };
+    let lens: &[usize] = if tier.is_thorough() { &LONG_LENS_THOROUGH } else { &[1, 2, 20, 40, 400] };
     let mut scales: Vec<i128> = vec![0, 1, -1, 15, -15, 16, -16, 17, -17, 21, -21];
     for d in [-1i128, 0, 1] {
         scales.push(lim + d);
@@ -341,7 +341,7 @@ fn main() {
     });
 
     // J1: every string of length <= L over the numeric alphabet as a JSON document, bare and quoted
-    let l: usize = tier.pick(6, 7);
+    let l: usize = tier.pick(6, 8);
     let alphabet = b"019-+.eE";
     run.bound("J1_alphabet", "0 1 9 - + . e E");
     run.bound("J1_max_len", l);
@@ -387,7 +387,7 @@ fn main() {
 
     // J2: long numbers: 1..2000 digits with fractions and exponents around the limits
     let mut docs: Vec<String> = vec![];
-    let dlens: &[usize] = if tier.is_thorough() { &[1, 19, 20, 100, 1000, 2000] } else { &[1, 20, 300, 2000] };
+    let dlens: &[usize] = if tier.is_thorough() { &[1, 2, 18, 19, 20, 21, 38, 39, 40, 100, 300, 1000, 2000, 5000] } else { &[1, 20, 300, 2000] };
     for &dl in dlens {
         let digits = filler_digits(run.seed(), dl as u64, dl);
         for int in [digits.clone(), format!("-{}", digits)] {
